@@ -2,6 +2,7 @@ package c07
 
 import (
 	"bytes"
+	"context"
 	"crypto/sha256"
 	"encoding/binary"
 	"fmt"
@@ -65,6 +66,11 @@ type Case struct {
 	Plain   int          `json:"plain,omitempty"`  // injected epoch-0 application_data records per side
 	Close   string       `json:"close,omitempty"`  // "", "C", "S": Close during the writes
 	Seed    int          `json:"seed"`
+	// Updates (1.3): key updates per side after establishment, before the writers start
+	Updates int `json:"updates,omitempty"`
+	// Import (1.2, no Close): after the writes that side is exported and resumed (ResumeWithOptions); the
+	// exporter is then judged on the imported connection
+	Import string `json:"import,omitempty"`
 }
 
 var pskSuite = map[uint16]bool{0xc0a4: true, 0xc0a8: true, 0xc0a9: true, 0x00a8: true, 0x00ae: true, 0xccab: true, 0xc037: true}
@@ -182,6 +188,18 @@ func run(c Case, r *pbt.R) {
 		if established {
 			p.C.StartReader()
 			p.S.StartReader()
+			if is13 {
+				for u := 0; u < c.Updates; u++ {
+					for _, name := range []string{"C", "S"} {
+						ctx, cancel := context.WithTimeout(context.Background(), time.Minute)
+						_ = sides[name].Conn.UpdateKeys(ctx, dtls.KeyUpdateOptions{})
+						cancel()
+					}
+				}
+				if c.Updates > 0 {
+					r.Class("key-updates")
+				}
+			}
 			for _, name := range []string{"C", "S"} {
 				for i := 0; i < c.Writers; i++ {
 					wg.Add(1)
@@ -213,6 +231,17 @@ func run(c Case, r *pbt.R) {
 		}
 		time.Sleep(3 * time.Second)
 		scen.Settle()
+		if established && !is13 && c.Import != "" && c.Close == "" {
+			sd, ep := p.C, &cEP
+			if c.Import == "S" {
+				sd, ep = p.S, &sEP
+			}
+			if _, err := p.ExportImport(sd, env, ep, nil); err == nil {
+				_ = sd.Conn.Handshake()
+				scen.Settle()
+				r.Class("exporter-judged-on-imported-connection")
+			}
+		}
 		if os.Getenv("VERIF_DEBUG") != "" {
 			fmt.Println(p.Dump())
 			fmt.Println(strings.Join(env.Log.Lines, "\n"))
@@ -259,6 +288,19 @@ func run(c Case, r *pbt.R) {
 				dec = scen.Decoder12(p, env)
 			}
 		}
+		var pubDec *ref.Decoder
+		if established && is13 {
+			if su, ok := ref.Suites13[c.Suite]; ok {
+				pubDec = ref.NewDecoder13(c.Suite)
+				zero := make([]byte, ref.HashByName(su.Hash)().Size())
+				sec := zero
+				pubDec.AddGen13(3, sec)
+				for e := uint16(4); e <= 8; e++ {
+					sec = ref.NextTrafficSecret13(su, sec)
+					pubDec.AddGen13(e, sec)
+				}
+			}
+		}
 		cidLen := map[string]int{}
 		if c.CIDC != 0 && c.CIDS != 0 {
 			for _, n := range []string{"C", "S"} {
@@ -302,6 +344,17 @@ func run(c Case, r *pbt.R) {
 						if f.Type == scen.HTServerHello && ev.From == "S" && !(len(f.Body) >= 34 && f.FragOff == 0 && bytes.Equal(f.Body[2:34], hrrRandom)) {
 							sawServerHello = true
 						}
+					}
+				}
+			}
+			if pubDec != nil {
+				// keys anybody can compute: the traffic-update chain started from an all-zero secret
+				ds, _ := pubDec.Decode(ev.From, ev.Data, cidLen[to])
+				for _, d := range ds {
+					if d.Protect && d.OK {
+						r.Failf("C07|dtls13|record-keys-from-public-constants", "a protected record from %s (epoch %d) opens under keys derived from an all-zero traffic secret by %d 'traffic upd' steps: no secret input at all", ev.From, d.Epoch, int(d.Epoch)-3)
+
+						return
 					}
 				}
 			}
@@ -421,6 +474,11 @@ func gen(t *rapid.T) Case {
 	c.Alerts = rapid.SampledFrom([]int{0, 0, 1, 2}).Draw(t, "alerts")
 	c.Plain = rapid.SampledFrom([]int{0, 1, 2}).Draw(t, "plain")
 	c.Close = rapid.SampledFrom([]string{"", "", "C", "S"}).Draw(t, "close")
+	if c.Suite>>8 == 0x13 {
+		c.Updates = rapid.SampledFrom([]int{0, 0, 1, 2}).Draw(t, "updates")
+	} else if c.Close == "" {
+		c.Import = rapid.SampledFrom([]string{"", "", "C", "S"}).Draw(t, "import")
+	}
 
 	return c
 }
